@@ -3,7 +3,7 @@
 # Analyses /repo's current working tree (type-checked source -> SSA); exits 0 iff every
 # obligation of the property is discharged or covered by an open entry of known_findings.json.
 cd "$(dirname "$0")"
-export GOFLAGS=-mod=mod GOPROXY=off GOSUMDB=off GOTOOLCHAIN=local CGO_ENABLED=0
+export GOFLAGS=-mod=mod GOPROXY=off GOSUMDB=off GOTOOLCHAIN=local
 unset GOWORK
 ID="$1"; TIER="${2:-${VERIF_TIER:-quick}}"
 REPO="${VERIF_REPO:-/repo}"
